@@ -27,6 +27,8 @@ def scenarios(tier):
         ("r2ww", [[R], [R], [W(5), W(6)]], False),
         ("rr_w2", [[R, R], [W(5)], [W(6)]], False),
         ("r3w2", [[R], [R], [Rs], [W(5)], [W(6)]], False),
+        ("rs_r_ww", [[Rs], [R], [W(5), W(6)]], False),
+        ("rs_r_w_w", [[Rs], [R], [W(5)], [W(6)]], False),
         ("r2_close", [[R], [R], [CL]], False),
         ("r2w1_close", [[R], [R], [W(5)], [CL]], False),
         ("wwc_rrr", [[W(5), W(6), CL], [R, Rs, R]], False),
